@@ -118,12 +118,38 @@ theorem emitGroups_ok (options : Fields) : ∀ (rs : List (Val × List Val)) (ou
         subst h
         exact List.Forall₂.cons ⟨fs, ha, rfl⟩ (emitGroups_ok options rest r hr)
 
-/-- what `$group` returns, whatever the key expression: the groups cover the input exactly once -/
-theorem groupStage_groups (options : Fields) (docs out : List Val)
+/-! ### the accumulators are validated before anything is read -/
+
+theorem groupStage_eq (options : Fields) (docs : List Val) :
+    groupStage (.doc options) docs =
+      (match validateAccs options with
+       | .error e => .error e
+       | .ok _ => groupBody options docs) := rfl
+
+/-- a bad accumulator name (or a field value that is no document) is THE error of the stage,
+    whatever the documents — none included — and whatever else is wrong with the stage -/
+theorem groupStage_invalid (options : Fields) (docs : List Val) (e : Err)
+    (h : validateAccs options = .error e) : groupStage (.doc options) docs = .error e := by
+  rw [groupStage_eq, h]
+
+theorem groupStage_valid (options : Fields) (docs : List Val)
+    (h : validateAccs options = .ok ()) : groupStage (.doc options) docs = groupBody options docs := by
+  rw [groupStage_eq, h]
+
+theorem groupStage_ok (options : Fields) (docs out : List Val)
     (h : groupStage (.doc options) docs = .ok out) :
+    validateAccs options = .ok () ∧ groupBody options docs = .ok out := by
+  rw [groupStage_eq] at h
+  cases hv : validateAccs options with
+  | error e => rw [hv] at h; cases h
+  | ok u => rw [hv] at h; exact ⟨rfl, h⟩
+
+/-- what `$group` returns, whatever the key expression: the groups cover the input exactly once -/
+theorem groupBody_groups (options : Fields) (docs out : List Val)
+    (h : groupBody options docs = .ok out) :
     ∃ rs : List (Val × List Val), emitGroups options rs = .ok out ∧
       (rs.flatMap (·.2)).Perm docs := by
-  simp only [groupStage] at h
+  simp only [groupBody] at h
   split at h
   · cases h
   · rename_i idExpr hid
@@ -144,29 +170,35 @@ theorem groupStage_groups (options : Fields) (docs out : List Val)
     · refine ⟨if docs.isEmpty then [] else [(.null, docs)], h, ?_⟩
       cases docs <;> simp
 
+theorem groupStage_groups (options : Fields) (docs out : List Val)
+    (h : groupStage (.doc options) docs = .ok out) :
+    ∃ rs : List (Val × List Val), emitGroups options rs = .ok out ∧
+      (rs.flatMap (·.2)).Perm docs :=
+  groupBody_groups options docs out (groupStage_ok options docs out h).2
+
 /-- no input, no group — whatever the `_id` expression (a constant included) -/
-theorem groupStage_empty (options : Fields) (idExpr : Val)
-    (hid : dget "_id" options = some idExpr) : groupStage (.doc options) [] = .ok [] := by
+theorem groupBody_empty (options : Fields) (idExpr : Val)
+    (hid : dget "_id" options = some idExpr) : groupBody options [] = .ok [] := by
   have hs : pySorted keyedLt false ([] : List (Val × Val)) = .ok [] := by
     simp [pySorted, pairsOk, isort]
   cases hn : Expr.isNull idExpr <;>
-    simp [groupStage, hid, hn, keyed, hs, groupRuns, emitGroups]
+    simp [groupBody, hid, hn, keyed, hs, groupRuns, emitGroups]
 
 /-- `_id: null`: one group holding every document, in input order — none over no input -/
-theorem groupStage_null_id (options : Fields) (docs : List Val)
+theorem groupBody_null_id (options : Fields) (docs : List Val)
     (hid : dget "_id" options = some .null) :
-    groupStage (.doc options) docs =
+    groupBody options docs =
       emitGroups options (if docs.isEmpty then [] else [(.null, docs)]) := by
-  simp [groupStage, hid, Expr.isNull]
+  simp [groupBody, hid, Expr.isNull]
 
 /-- **`$group` partitions its input by key** (scalar keys): the groups have pairwise different
     keys, the group of key `k` holds exactly the documents whose key is `==` to `k`, in input
     order, and every document's key has its group. -/
-theorem groupStage_partition (options : Fields) (idExpr : Val) (docs out : List Val)
+theorem groupBody_partition (options : Fields) (idExpr : Val) (docs out : List Val)
     (kds : List (Val × Val))
     (hid : dget "_id" options = some idExpr) (ht : Expr.isNull idExpr = false)
     (hk : keyed idExpr docs = .ok kds) (hK : ∀ p ∈ kds, groupKeyOk p.1 = true)
-    (h : groupStage (.doc options) docs = .ok out) :
+    (h : groupBody options docs = .ok out) :
     ∃ rs : List (Val × List Val), emitGroups options rs = .ok out ∧
       rs.Pairwise (fun a b => pyEq a.1 b.1 = false) ∧
       (∀ r ∈ rs, (∃ p ∈ kds, p.1 = r.1) ∧
@@ -174,7 +206,7 @@ theorem groupStage_partition (options : Fields) (idExpr : Val) (docs out : List 
       (∀ p ∈ kds, ∃ r ∈ rs, pyEq r.1 p.1 = true) := by
   have hshallow : kds.all (fun kd => keyShallow kd.1) = true := by
     simp only [List.all_eq_true]; intro p hp; exact keyShallow_of_ok _ (hK p hp)
-  simp only [groupStage, hid, ht, Bool.not_false, if_true, hk, hshallow, Bool.not_true,
+  simp only [groupBody, hid, ht, Bool.not_false, if_true, hk, hshallow, Bool.not_true,
     Bool.false_eq_true, if_false, group_sort_eq kds hK] at h
   set ltp := fun a b : Val × Val => valLt a.1 b.1 with hltp
   have hperm : (isort ltp kds).Perm kds := isort_perm _ _
@@ -199,5 +231,35 @@ theorem groupStage_partition (options : Fields) (idExpr : Val) (docs out : List 
     rw [e1, e2]; exact hst
   · intro p hp
     exact g3 p (hperm.mem_iff.2 hp)
+
+theorem groupStage_partition (options : Fields) (idExpr : Val) (docs out : List Val)
+    (kds : List (Val × Val))
+    (hid : dget "_id" options = some idExpr) (ht : Expr.isNull idExpr = false)
+    (hk : keyed idExpr docs = .ok kds) (hK : ∀ p ∈ kds, groupKeyOk p.1 = true)
+    (h : groupStage (.doc options) docs = .ok out) :
+    ∃ rs : List (Val × List Val), emitGroups options rs = .ok out ∧
+      rs.Pairwise (fun a b => pyEq a.1 b.1 = false) ∧
+      (∀ r ∈ rs, (∃ p ∈ kds, p.1 = r.1) ∧
+        r.2 = (kds.filter (fun p => pyEq r.1 p.1)).map (·.2)) ∧
+      (∀ p ∈ kds, ∃ r ∈ rs, pyEq r.1 p.1 = true) :=
+  groupBody_partition options idExpr docs out kds hid ht hk hK (groupStage_ok options docs out h).2
+
+/-- over no input: the accumulators are still validated, then there is no group -/
+theorem groupStage_empty (options : Fields) (idExpr : Val)
+    (hid : dget "_id" options = some idExpr) :
+    groupStage (.doc options) [] =
+      (match validateAccs options with
+       | .error e => .error e
+       | .ok _ => .ok []) := by
+  rw [groupStage_eq]
+  cases validateAccs options with
+  | error e => rfl
+  | ok u => exact groupBody_empty options idExpr hid
+
+theorem groupStage_null_id (options : Fields) (docs : List Val)
+    (hid : dget "_id" options = some .null) (hv : validateAccs options = .ok ()) :
+    groupStage (.doc options) docs =
+      emitGroups options (if docs.isEmpty then [] else [(.null, docs)]) := by
+  rw [groupStage_valid options docs hv, groupBody_null_id options docs hid]
 
 end MongoModel.Pipe.Proofs
